@@ -45,6 +45,7 @@ package neutrino
 //	honest    follows the honest chain, answers everything truthfully
 //	lighter   serves its own valid fork of the honest chain (forks K blocks below the tip at creation, has
 //	          Len blocks above the fork point, fewer than the honest chain) and never follows the honest chain
+//	lighterq  like lighter, but silent on getcfcheckpt / getcfheaders / getcfilters
 //	invalid   serves the honest chain up to the height it had at creation and then Len own blocks of which the
 //	          first fails its proof of work; claims that height in its version message
 //	cplie     honest headers and cfheaders, but its cfcheckpt answers are false from height K on
@@ -247,6 +248,17 @@ func vnBlock(seed int64, branch, height int, prev chainhash.Hash, ts int64, vali
 	return blk, [][]byte{spent}
 }
 
+// vnMedianTimePast: median of the timestamps of block h and its (up to) 10
+// ancestors, the way btcd's CalcPastMedianTime does it.
+func vnMedianTimePast(c *vnChain, h int) int64 {
+	var ts []int64
+	for i := h; i >= 0 && len(ts) < 11; i-- {
+		ts = append(ts, c.hdr[i].Timestamp.Unix())
+	}
+	sort.Slice(ts, func(a, b int) bool { return ts[a] < ts[b] })
+	return ts[len(ts)/2]
+}
+
 func vnChainFH(fh, prev chainhash.Hash) chainhash.Hash {
 	var buf [64]byte
 	copy(buf[:32], fh[:])
@@ -267,6 +279,8 @@ type vnBranch struct {
 type vnNet struct {
 	Params *chaincfg.Params
 	Seed   int64
+	// TSJitter: non-monotonic (valid) block timestamps, see grow. On by default.
+	TSJitter bool
 
 	mu       sync.Mutex
 	honest   *vnChain
@@ -287,7 +301,7 @@ type vnNet struct {
 func vnStartNetwork(seed int64, initialLen int) (*vnNet, error) {
 	n := &vnNet{Params: vnParams(), Seed: seed, blocks: map[chainhash.Hash]vnRef{},
 		chainOf: map[chainhash.Hash]*vnChain{}, fhdrs: map[chainhash.Hash]vnRef{},
-		stopDial: make(chan struct{}), dialWait: 20 * time.Second}
+		stopDial: make(chan struct{}), dialWait: 20 * time.Second, TSJitter: true}
 	n.baseTS = time.Now().Unix() - 6000
 	gen := n.Params.GenesisBlock
 	gf, err := builder.BuildBasicFilter(gen, nil)
@@ -313,7 +327,7 @@ func vnStartNetwork(seed int64, initialLen int) (*vnNet, error) {
 	n.branches = []vnBranch{{Par: 0, Fork: -1, Tip: 0}}
 	n.hb = 1
 	n.register(c, 0)
-	if err := n.grow(c, 1, initialLen, 0); err != nil {
+	if err := n.grow(c, 1, initialLen, 0, false); err != nil {
 		return nil, err
 	}
 	n.branches[0].Tip = c.tip()
@@ -332,12 +346,25 @@ func (n *vnNet) register(c *vnChain, h int) {
 
 // grow appends k blocks mined by branch to c (mutates c: only for views not
 // yet published). badAt > 0: the block at that height fails its PoW.
-func (n *vnNet) grow(c *vnChain, branch, k, badAt int) error {
+func (n *vnNet) grow(c *vnChain, branch, k, badAt int, backdateLast bool) error {
 	for i := 0; i < k; i++ {
 		h := c.tip() + 1
 		ts := c.hdr[h-1].Timestamp.Unix() + 1
 		if h == 1 {
 			ts = n.baseTS
+		} else if n.TSJitter {
+			// Timestamps of an honest chain are not monotonic: only the
+			// median of the previous 11 binds. -3..+5 s around the
+			// parent (mean +1); the last block of a branch of >= 4
+			// blocks (a reorganisation) is dated before its parent.
+			x := vnTag("ts", vnU32(int(n.Seed)), vnU32(branch), vnU32(h))
+			ts = c.hdr[h-1].Timestamp.Unix() + int64(x[0]%9) - 3
+			if backdateLast && k >= 4 && i == k-1 {
+				ts = c.hdr[h-1].Timestamp.Unix() - 2
+			}
+			if mtp := vnMedianTimePast(c, h-1); ts <= mtp {
+				ts = mtp + 1
+			}
 		}
 		blk, prevs := vnBlock(n.Seed, branch, h, c.hash[h-1], ts, h != badAt)
 		f, err := builder.BuildBasicFilter(blk, prevs)
@@ -382,7 +409,7 @@ func (n *vnNet) Branches() []vnBranch {
 func (n *vnNet) Extend(k int) vnRef {
 	n.mu.Lock()
 	c := n.honest.clone(n.honest.tip())
-	if err := n.grow(c, n.hb, k, 0); err != nil {
+	if err := n.grow(c, n.hb, k, 0, false); err != nil {
 		n.mu.Unlock()
 		panic(err)
 	}
@@ -410,7 +437,7 @@ func (n *vnNet) Reorg(depth, newLen int) (int, vnRef) {
 	c := n.honest.clone(fork)
 	n.branches = append(n.branches, vnBranch{Par: n.hb, Fork: fork, Tip: fork})
 	b := len(n.branches)
-	if err := n.grow(c, b, newLen, 0); err != nil {
+	if err := n.grow(c, b, newLen, 0, true); err != nil {
 		n.mu.Unlock()
 		panic(err)
 	}
@@ -441,7 +468,7 @@ func (n *vnNet) forkView(below, length int, badFirst bool) (*vnChain, int) {
 	}
 	n.branches = append(n.branches, vnBranch{Par: n.hb, Fork: fork, Tip: fork, Bad: bad})
 	b := len(n.branches)
-	if err := n.grow(c, b, length, bad); err != nil {
+	if err := n.grow(c, b, length, bad, false); err != nil {
 		panic(err)
 	}
 	n.branches[b-1].Tip = c.tip()
@@ -656,8 +683,8 @@ type vnNode struct {
 	// Flush): a gate may delay an honest node, it must never make it look
 	// unresponsive (QueryTimeout).
 	MaxHold time.Duration
-	stats  map[string]int
-	nconn  int
+	stats   map[string]int
+	nconn   int
 }
 
 type vnNodeConn struct {
@@ -688,7 +715,7 @@ func (nd *vnNode) SetBehaviour(b vnBehaviour) {
 	var view *vnChain
 	branch := 0
 	switch b.Kind {
-	case "lighter":
+	case "lighter", "lighterq":
 		l := b.Len
 		if l < 0 {
 			l = 0
@@ -977,6 +1004,12 @@ func (nc *vnNodeConn) handle(msg wire.Message, released bool) {
 	// requests
 	if b.Kind == "silent" {
 		return
+	}
+	if b.Kind == "lighterq" {
+		switch msg.(type) {
+		case *wire.MsgGetCFCheckpt, *wire.MsgGetCFHeaders, *wire.MsgGetCFilters:
+			return
+		}
 	}
 	if b.Kind == "garbage" {
 		junk := make([]byte, 300)
